@@ -831,6 +831,7 @@ type baseRec struct {
 	Site   string `json:"site"`
 	Marker string `json:"marker"` // hex
 	Sql    string `json:"sql"`    // hex
+	Mode   string `json:"mode"`
 }
 type caseRec struct {
 	Kind  string `json:"kind"`
@@ -869,7 +870,7 @@ func (rn *runner) baseFor(st site, mk, mklit string, stmt int, nstmts int) int {
 	for i, q := range r.sqls {
 		k := fmt.Sprintf("%s|%s|%d", st.name, mk, i)
 		rn.bases[k] = rn.nbase
-		rn.out.Put(baseRec{Kind: "base", Bid: rn.nbase, Site: st.name, Marker: hx.Hex(mklit), Sql: hx.Hex(q)})
+		rn.out.Put(baseRec{Kind: "base", Bid: rn.nbase, Site: st.name, Marker: hx.Hex(mklit), Sql: hx.Hex(q), Mode: r.mode})
 		rn.nbase++
 	}
 	return rn.bases[key]
